@@ -198,6 +198,37 @@ fn program(job: &Value) -> Result<ResolvedTransaction, String> {
         }
         // type-id system script alone behind an always_success lock
         "typeid" => TxSpec { deps: vec![always.clone()], inputs: vec![(script_of(&always, &[], 0), Some(type_id_script(5)))], witnesses: vec![] }.build(),
+        // type-id system script, other paths: "create" (only an OUTPUT carries it; args = hash of the first input and the output
+        // index), "badhash" (creation with other args: fails), "two" (two inputs carry it: fails), "args" (31-byte args: fails);
+        // each next to an always_success lock group so that chunk limits below the type-id cost meet a second group
+        "typeid_create" | "typeid_badhash" | "typeid_two" | "typeid_args" => {
+            let mut rtx = TxSpec {
+                deps: vec![always.clone()],
+                inputs: if parts[0] == "typeid_two" {
+                    vec![(script_of(&always, &[1], 0), Some(type_id_script(5))), (script_of(&always, &[2], 1), Some(type_id_script(5)))]
+                } else {
+                    vec![(script_of(&always, &[1], num(1, 0)), None)]
+                },
+                witnesses: vec![],
+            }.build();
+            if parts[0] != "typeid_two" {
+                let first = rtx.transaction.inputs().get(0).unwrap();
+                let mut h = ckb_hash::new_blake2b();
+                h.update(first.as_slice());
+                h.update(&0u64.to_le_bytes());
+                let mut id = [0u8; 32];
+                h.finalize(&mut id);
+                let args: Vec<u8> = match parts[0] {
+                    "typeid_create" => id.to_vec(),
+                    "typeid_badhash" => vec![5u8; 32],
+                    _ => id[..31].to_vec(),
+                };
+                let ty = Script::new_builder().code_hash(TYPE_ID_CODE_HASH).hash_type(ScriptHashType::Type).args(Bytes::from(args)).build();
+                let out = CellOutput::new_builder().capacity(Capacity::bytes(100).unwrap()).lock(script_of(&always, &[1], 0)).type_(Some(ty)).build();
+                rtx.transaction = rtx.transaction.as_advanced_builder().output(out).output_data(Bytes::new()).build();
+            }
+            rtx
+        }
         "fail" => single("always_failure", &[], num(1, 0), &[], vec![]),
         "cases" => single("spawn_cases", &[num(1, 1) as u8], 2, &[], vec![]),
         "strcat" => single("spawn_caller_strcat", &[], 2, &["spawn_callee_strcat"], vec![]),
@@ -319,7 +350,9 @@ fn reference(v: &Verifier, want_iters: bool) -> Reference {
         let group = v.find_script_group(*t, h).unwrap();
         let is_type_id = group.script.code_hash() == TYPE_ID_CODE_HASH.into() && group.script.hash_type() == ScriptHashType::Type.into();
         if is_type_id {
-            g["need"] = json!(r.clone().unwrap_or(0));
+            // the built-in script charges its fixed cost BEFORE it looks at the transaction (`max_cycles < TYPE_ID_CYCLES` is
+            // its first test): the verdict of the group - pass or fail - is known only once that many cycles are granted
+            g["need"] = json!(1_000_000u64);
             groups.push(g);
             continue;
         }
